@@ -53,3 +53,12 @@ func (fl *fieldList) get(name string) (f *FieldDef) {
 	}
 	return
 }
+
+// dup returns a copy that does not share the dictionary with the original.
+func (fl *fieldList) dup() fieldList {
+	d := fieldList{dict: make(map[string]*FieldDef, len(fl.dict)), list: fl.list}
+	for k, v := range fl.dict {
+		d.dict[k] = v
+	}
+	return d
+}
